@@ -387,8 +387,8 @@ class Campaign:
     def describe(self, rid):
         info = dict(self.stim[rid])
         t = self.types[info["ti"]]
-        info["type"] = dsdl.shape(t)
-        info["descr"] = t
+        info["type"] = dsdl.shape(t) + ("/svc-" + t["svc"] if t.get("svc") else "")
+        info["descr"] = {k: v for k, v in t.items() if k != "partner"}
         return info
 
 
@@ -415,6 +415,15 @@ def universe(ctx, n_rand, level, depth=2, big=True):
             continue
         types.append(t)
         i += 1
+    return types
+
+
+def mark_services(types, pairs=6):
+    """turn the first `pairs` adjacent pairs of the list (even index = request, odd = response) into services: request and response types go through
+    the ServiceType templates of every target.  Batches have even sizes, so a pair is never split."""
+    for i in range(0, min(2 * pairs, len(types) - 1), 2):
+        types[i]["svc"] = "Request"
+        types[i + 1]["svc"] = "Response"
     return types
 
 
@@ -512,21 +521,27 @@ def replay_generic(ctx, case, prop):
     """re-run one recorded case against the current tree"""
     t = case["descr"]
     sp = case["spec"]
-    camp = Campaign(ctx, [t], [sp] if sp["kind"] != "py" else [], with_py=(sp["kind"] == "py"), batch=1)
+    t.pop("partner", None)
+    types, ti0 = [t], 0
+    if t.get("svc") == "Request":
+        types = [t, dict(dsdl.S([dsdl.U(8)]), svc="Response")]
+    elif t.get("svc") == "Response":
+        types, ti0 = [dict(dsdl.S([dsdl.U(8)]), svc="Request"), t], 1
+    camp = Campaign(ctx, types, [sp] if sp["kind"] != "py" else [], with_py=(sp["kind"] == "py"), batch=2)
     if sp["kind"] != "py":
         sp["frac"] = 1.0
     camp.build()
     report_gen_failures(camp, ctx, prop)
     if case["ev"] == "ser":
         v = retuple(t, case["v"])
-        camp.ser_events([{"ti": 0, "v": v, "klass": case.get("klass", "common"), "case": camp.new_case()}],
+        camp.ser_events([{"ti": ti0, "v": v, "klass": case.get("klass", "common"), "case": camp.new_case()}],
                         buf_of=(lambda c, need: case["buf"]) if "buf" in case and case["buf"] is not None and case["buf"] >= 0 else None)
     elif case["ev"] in ("des", "rt"):
         priors = (0, case["prior"]) if case.get("prior") else (0,)
-        camp.des_events([{"ti": 0, "data": bytes.fromhex(case["data"]), "why": case.get("why", "replay"), "case": camp.new_case(), "priors": priors,
+        camp.des_events([{"ti": ti0, "data": bytes.fromhex(case["data"]), "why": case.get("why", "replay"), "case": camp.new_case(), "priors": priors,
                           "null": case.get("null", False)}], op="D" if case["ev"] == "des" else "R")
     else:
-        camp.meta_events([0])
+        camp.meta_events([ti0])
     rej = camp.judge()
     return report(camp, ctx, rej, prop, extra_owner=case.get("extra_owner"))
 
